@@ -374,20 +374,21 @@ def gen_histories(rng, prep: Prepared, tids: typing.List[str], per_type: int = 1
             hs.append(h)
             # ---- decode shape: b1 = truncation (possibly to nothing) of a valid encoding, b2 = another valid encoding
             full = enc[1] if len(enc[1]) >= len(enc[0]) else enc[0]
-            cut = rng.choice([0, 1, len(full) // 3, len(full) // 2]) if full else 0
-            b1, b2 = full[:cut], enc[2]
-            d1, d2 = m.des_req(tid, b1), m.des_req(tid, b2)
-            h = History(tid, ['history_decode'])
-            h.steps = [(['des', tid, b1.hex() or '-', 'o1'], 'des', d1, None),
-                       (['mutate', 'o1'], 'any', None, None),
-                       (['des', tid, b1.hex() or '-', 'o2'], 'des', d1, None),
-                       (['des', tid, b2.hex() or '-', 'o3'], 'des', d2, None),
-                       (['dump', 'o2'], 'des', d1, None),
-                       (['mutate', 'o2'], 'any', None, None),
-                       (['dump', 'o3'], 'des', d2, None),
-                       (['des', tid, b1.hex() or '-', 'o4'], 'des', d1, None),
-                       (['reser', 'o3', 'f1'], 'ser', m.ser_req(tid, vals[2]), vals[2])]
-            hs.append(h)
+            cuts = [0] + ([rng.choice([1, len(full) // 3, len(full) // 2, max(len(full) - 1, 0)])] if len(full) > 1 else [])
+            for cut in cuts:        # the empty input (every array wholly zero-extended) and one cut inside the data
+                b1, b2 = full[:cut], enc[2]
+                d1, d2 = m.des_req(tid, b1), m.des_req(tid, b2)
+                h = History(tid, ['history_decode', 'history_decode_empty_input' if cut == 0 else 'history_decode_truncated_input'])
+                h.steps = [(['des', tid, b1.hex() or '-', 'o1'], 'des', d1, None),
+                           (['mutate', 'o1'], 'any', None, None),
+                           (['des', tid, b1.hex() or '-', 'o2'], 'des', d1, None),
+                           (['des', tid, b2.hex() or '-', 'o3'], 'des', d2, None),
+                           (['dump', 'o2'], 'des', d1, None),
+                           (['mutate', 'o2'], 'any', None, None),
+                           (['dump', 'o3'], 'des', d2, None),
+                           (['des', tid, b1.hex() or '-', 'o4'], 'des', d1, None),
+                           (['reser', 'o3', 'f1'], 'ser', m.ser_req(tid, vals[2]), vals[2])]
+                hs.append(h)
     # expected answers: one model run for all steps
     reqs = sorted({st[2] for h in hs for st in h.steps if st[2]})
     ans = dict(zip(reqs, m.run(reqs)))
@@ -443,23 +444,11 @@ def run_histories(rng, prep: Prepared, stats: dict, per_type: int = 1) -> typing
             else:
                 bad = check_history(prep, h, got)
             if bad and not out:
-                src = {prep.db.comp(h.tid)['source']}
-                need = set()
-
-                def visit(tid):
-                    if tid in need:
-                        return
-                    need.add(tid)
-                    for fl in prep.db.comp(tid)['fields']:
-                        for r in modelmod.refs_of(fl['type']):
-                            visit(r)
-                visit(h.tid)
-                srcs = {prep.db.comp(t)['source'] for t in need}
                 out.append({'kind': 'history', 'target': tgt.name, 'label': lab, 'options': tgt.options, 'tags': h.tags,
                             'case': {'op': 'hist', 'tid': h.tid, 'request': h.request(), 'expected_steps': h.expected,
                                      'step_kinds': [st[1] for st in h.steps], 'tags': h.tags},
                             'first_difference': bad,
-                            'files': {k: v for k, v in prep.spec['files'].items() if k in srcs} or prep.spec['files']})
+                            'files': needed_files(prep, h.tid)})
     return out
 
 
@@ -875,6 +864,24 @@ def _type_strata(db, t, acc: dict) -> None:
 # shrinking and replay
 # ------------------------------------------------------------------------------------------------
 
+def needed_files(prep: Prepared, tid: str) -> typing.Dict[str, str]:
+    """the DSDL definitions `tid` needs, closed under "same source file" (a service file holds two composites)"""
+    db = prep.db
+    need: typing.Set[str] = set()
+    todo = [tid]
+    while todo:
+        t = todo.pop()
+        if t in need:
+            continue
+        need.add(t)
+        for fl in db.comp(t)['fields']:
+            todo += modelmod.refs_of(fl['type'])
+        src = db.comp(t)['source']
+        todo += [o for o in db.ids() if db.comp(o)['source'] == src and o not in need]
+    srcs = {db.comp(t)['source'] for t in need}
+    return {k: v for k, v in prep.spec['files'].items() if k in srcs} or dict(prep.spec['files'])
+
+
 def still_fails(prep: Prepared, tgt: proto.Target, cands: typing.List[Case]) -> typing.List[bool]:
     for c in cands:
         c.req = make_request(prep.model, c)
@@ -915,19 +922,7 @@ def shrink_failure(f: dict, budget: int = 12) -> dict:
     cur.req = make_request(prep.model, cur)
     exp = prep.model.run([cur.req])[0]
     got = tgt.run([cur.req], timeout=60.0)[0]
-    # keep only the DSDL definitions the failing type needs
-    need = set()
-
-    def visit(tid):
-        if tid in need:
-            return
-        need.add(tid)
-        for fl in prep.db.comp(tid)['fields']:
-            for r in modelmod.refs_of(fl['type']):
-                visit(r)
-    visit(cur.tid)
-    srcs = {prep.db.comp(t)['source'] for t in need}
-    files = {k: v for k, v in prep.spec['files'].items() if k in srcs} or prep.spec['files']
+    files = needed_files(prep, cur.tid)
     return {'case': cur.to_json(), 'expected': exp, 'got': got, 'original_case': f['case'], 'files': files,
             'dsdl_of_failing_type': files.get(prep.db.comp(cur.tid)['source'], '')}
 
